@@ -188,3 +188,41 @@ def h_buffered(c, ptype):
         c.ensure("initial.cids_registered_by_direction", len(mine.items) == 1 and mine.items[0] is scid and len(other.items) == 1 and other.items[0] is dcid)
     else:
         c.ensure("cids_untouched", len(sc.items) == 0 and len(cc.items) == 0)
+
+
+@harness(["C02", "C15"], "quic.key_epoch", functions=[QS + ".check_key_epoch"], cases=[(True,), (False,)])
+def h_key_epoch(c, isserver):
+    """RFC 9001 6: a direction's key epoch advances exactly when ITS key-phase bit flips (the other direction's epoch and
+    phase are untouched), and the list of 1-RTT decryptor generations is extended by exactly one key update of the LAST
+    generation when an epoch reaches its end - so decryptors['Application'][n] is generation n for every epoch in use"""
+    if c.native:
+        return
+    es, ec = c.int("epoch_server", 0, 50), c.int("epoch_client", 0, 50)
+    ps, pc = c.int("phase_server", 0, 1), c.int("phase_client", 0, 1)
+    bit = c.int("key_phase_bit", 0, 1)
+    n = c.int("generations", 1, 60)
+    c.assume((es < n) & (ec < n))                 # representation invariant: every epoch in use has its generation
+    last = c.opaque("last_generation")
+    gens = c.counted_list("generations_list", n, last)
+    made = []
+    c.summary_override("tlexport.quic.quic_key_generation.key_update", lambda ctx, dn, *a: made.append((dn, a)) or ctx.opaque("next_generation"))
+    s = c.obj(QS, epoch_server=es, epoch_client=ec, last_key_phase_server=ps, last_key_phase_client=pc, decryptors={"Application": gens},
+              hash_fun=c.opaque("hash"), key_length=16, cipher=c.opaque("cipher"), quic_version=c.opaque("v1"))
+    out = c.method(s, "check_key_epoch", bit, isserver)
+    c.ensure("no_raise", out.exc is None, kind="raises")
+    if out.exc is not None:
+        return
+    g = lambda k: c.get(s, k)
+    my_e, my_p, ot_e, ot_p = ("epoch_server", "last_key_phase_server", "epoch_client", "last_key_phase_client") if isserver else \
+                             ("epoch_client", "last_key_phase_client", "epoch_server", "last_key_phase_server")
+    old_e, old_p, oe, op = (es, ps, ec, pc) if isserver else (ec, pc, es, ps)
+    flipped = old_p != bit
+    c.ensure("own_epoch", g(my_e) == old_e + c.ite_(flipped, 1, 0))
+    c.ensure("own_phase", g(my_p) == bit)
+    c.ensure("other_direction_untouched", (g(ot_e) == oe) & (g(ot_p) == op))
+    need = bor((old_e + c.ite_(flipped, 1, 0)) == n, oe == n)
+    if c.truth_fork(need):
+        c.ensure("one_update_of_the_last_generation", len(made) == 1 and made[0][0] is last and gens.appended == 1)
+    else:
+        c.ensure("no_update", len(made) == 0 and gens.appended == 0)
+    c.ensure("every_epoch_has_its_generation", (g(my_e) < n + gens.appended) & (g(ot_e) < n + gens.appended))
